@@ -246,6 +246,26 @@ def c15(run):
                               "tree under the store root differs from the README layout for depth=%d width=%d %s at %s" % (d, w, a, diff[:3]),
                               {"depth": d, "width": w, "algorithm": a, "pids": pids, "ns": ns, "fmt2": fmt2,
                                "data1_hex": data1.hex()[:200], "differs_at": diff[:6]})
+            # a cid is the string the caller gave (tag_object accepts any): upper- and lower-case spellings are two cids with two lists
+            up = H(b"never stored " + data1).upper()
+            try:
+                hs.tag_object("case-pid-U", up)
+                hs.tag_object("case-pid-L", up.lower())
+                for cid_, pid_ in ((up, "case-pid-U"), (up.lower(), "case-pid-L")):
+                    lp = os.path.join(root, "refs", "cids", *readme_shard(d, w, cid_))
+                    pp = os.path.join(root, "refs", "pids", *readme_shard(d, w, H(pid_.encode("utf-8"))))
+                    have_l = open(lp, "rb").read() if os.path.isfile(lp) else None
+                    have_p = open(pp, "rb").read() if os.path.isfile(pp) else None
+                    run.case("search-cid-spelling", (d, w, a, cid_[:8]), sample={"search": "cid spelled in upper / lower case", "depth": d, "width": w, "cid": cid_[:16]})
+                    if have_l != (pid_ + "\n").encode() or have_p != cid_.encode():
+                        run.violation({"kind": "layout", "what": "cid-case"},
+                                      "tag_object(%s, %s...): reference list at refs/cids/<shard(cid)> holds %r and the pid reference %r; expected the pid line and the cid as given" % (
+                                          pid_, cid_[:12], have_l, (have_p or b"")[:20]), {"depth": d, "width": w, "algorithm": a, "cid": cid_, "pid": pid_})
+                hs.delete_object("case-pid-U")
+                hs.delete_object("case-pid-L")
+            except Exception as e:  # noqa: BLE001
+                run.violation({"kind": "layout", "what": "cid-case", "exn": exn_name(e)}, "tagging / deleting pids on an upper-case and a lower-case spelling of a cid raised %s" % exn_name(e),
+                              {"depth": d, "width": w, "algorithm": a, "cid": up})
             # cid list codec: the model's line splitter applied to the implementation's bytes
             for p, v in got.items():
                 if p.startswith("refs/cids/"):
